@@ -339,10 +339,21 @@ func (bs *baseServer) Handshake(transportName string, ctx *types.HttpContext) (*
 	bs.clients.Store(id, socket)
 	bs.clientsCount.Add(1)
 
-	socket.Once("close", func(...any) {
-		bs.clients.Delete(id)
-		bs.clientsCount.Add(^uint64(0))
-	})
+	var unregistered atomic.Bool
+	unregister := func(...any) {
+		if unregistered.CompareAndSwap(false, true) {
+			bs.clients.Delete(id)
+			bs.clientsCount.Add(^uint64(0))
+		}
+	}
+	socket.Once("close", unregister)
+
+	// the transport is live since NewSocket: the peer may already have gone,
+	// in which case the close event was emitted before the listener above existed
+	if socket.ReadyState() == "closed" {
+		unregister()
+		return nil, transport
+	}
 
 	bs.Emit("connection", socket)
 
